@@ -184,6 +184,24 @@ func releaseBoltLock(store any) {
 	file.Close()
 }
 
+// armFSCrash makes server i die at the k-th file-system effect boundary (commit log write, index
+// write, create, rename, remove, checkpoint replace) it reaches from now on.
+func (h *h3) armFSCrash(i, k int) {
+	n := h.nodes[i]
+	if n.up {
+		h.s.Logf("arm fs-crash of %s at its effect boundary #%d from now", n.id, k)
+		h.s.ArmNodeFSCrash(n.node, k)
+		h.s.Count("fault.fscrash_armed")
+	}
+}
+
+// disarmFSCrashes withdraws every pending armFSCrash (before the fault-free final phase of a run).
+func (h *h3) disarmFSCrashes() {
+	for _, n := range h.nodes {
+		h.s.DisarmNodeFSCrash(n.node)
+	}
+}
+
 // stopNode shuts server i down cleanly.
 func (h *h3) stopNode(i int) error {
 	n := h.nodes[i]
@@ -281,6 +299,14 @@ func runH3(t *testing.T, prog *hx.Program, dec *simrt.Decider, verbose bool, nse
 		h.bus = nats.NewBus(s)
 		h.cluster = raft.NewCluster(s)
 		h.cluster.Connected = func(a, b int) bool { return !h.bus.IsCut(a, b) && !h.bus.IsCut(b, a) }
+		// a server armed with ArmNodeFSCrash dies inside a commit log file operation: same bookkeeping as crashNode
+		s.OnNodeFSCrash = func(node int, at string) {
+			for _, n := range h.nodes {
+				if n.node == node && n.up {
+					h.crashNode(n.idx)
+				}
+			}
+		}
 		for i := 0; i < nservers; i++ {
 			h.nodes = append(h.nodes, &simNode{idx: i, id: fmt.Sprintf("srv%d", i), dir: filepath.Join(dir, fmt.Sprintf("srv%d", i))})
 		}
